@@ -182,6 +182,7 @@ def handle (st : DState) : List String → P (DState × String)
     | .ok h => pure (st, "ok\t" ++ encHeader h)
     | .error e => pure (st, "err\t" ++ encErr e)
   | ["header.str", h] => do pure (st, replyS (← decHeader h).str)
+  | ["header.dump", h, n] => do pure (st, replyS ((← decHeader h).dump (← decNat n)))
   -- live object
   | ["hist.new", k, h] => do
     match Tr31.KB.init (← decBytes k) (← decHeaderArg h) with
